@@ -11,12 +11,14 @@ EXTENDS Integers, Sequences, FiniteSets, TLC, TimestampVerify
 CONSTANTS Behaviours,   \* what an authority can answer
           MaxUrls,
           CacheModes,   \* subset of {"off", "miss", "hitGood", "hitGarbage", "hitWrong"}
-          Variant       \* "code" | "NoNonceCheck" | "NoImprintCheck" | "AcceptRejected" | "NoTokenSigCheck" | "FirstFailAborts" | "OmitOnFailure" | "CacheSkipsSelfCheck"
+          Variant       \* "code" | "NoNonceCheck" | "NoImprintCheck" | "AcceptRejected" | "NoTokenSigCheck" | "FirstFailAborts" | "OmitOnFailure" | "CacheSkipsSelfCheck" | "RememberPosition"
 
 \* a reply is genuine iff granted, nonce echoed, imprint of THIS signature value, token correctly signed
 Genuine(b) == b \in {"valid", "grantedWithMods"}
 
-VARIABLES urls,       \* sequence of behaviours, one per configured authority, in configured order
+VARIABLES prior,      \* history of this (long-lived) client: "none" | "lastWon" = an earlier request was answered by the LAST
+                      \* configured authority after every other one had failed. It must not matter.
+          urls,       \* sequence of behaviours, one per configured authority, in configured order
           cache,
           k,          \* next authority to try (1-based)
           contacted,  \* authorities contacted so far, in order
@@ -25,7 +27,7 @@ VARIABLES urls,       \* sequence of behaviours, one per configured authority, i
           attachedGenuine, \* is the attached token genuine for this signature
           failed      \* signing reported an error
 
-vars == <<urls, cache, k, contacted, phase, attached, attachedGenuine, failed>>
+vars == <<prior, urls, cache, k, contacted, phase, attached, attachedGenuine, failed>>
 
 Accepts(b) ==   \* does the client's reply checking accept behaviour b
   \/ Genuine(b)
@@ -41,14 +43,16 @@ SelfCheckPasses(b) == Genuine(b) \/ b \in {"wrongNonce", "noNonce", "revocationW
 Init ==
   /\ urls \in UNION {[1..n -> Behaviours] : n \in 1..MaxUrls}
   /\ cache \in CacheModes
-  /\ k = 1 /\ contacted = <<>> /\ phase = "start" /\ attached = 0 /\ attachedGenuine = FALSE /\ failed = FALSE
+  /\ prior \in {"none", "lastWon"} /\ (prior = "lastWon" => (Len(urls) > 1 /\ cache = "off"))
+  \* (deviation "RememberPosition": the loop starts at the authority that answered last time)
+  /\ k = (IF Variant = "RememberPosition" /\ prior = "lastWon" THEN Len(urls) ELSE 1) /\ contacted = <<>> /\ phase = "start" /\ attached = 0 /\ attachedGenuine = FALSE /\ failed = FALSE
 
 CacheLookup ==
   /\ phase = "start"
   /\ IF cache \in {"hitGood", "hitWrong"}
        THEN /\ attached' = -1 /\ attachedGenuine' = (cache = "hitGood") /\ phase' = "selfcheck"
        ELSE /\ phase' = "trying" /\ UNCHANGED <<attached, attachedGenuine>>
-  /\ UNCHANGED <<urls, cache, k, contacted, failed>>
+  /\ UNCHANGED <<prior, urls, cache, k, contacted, failed>>
 
 Try ==
   /\ phase = "trying" /\ k <= Len(urls)
@@ -58,13 +62,13 @@ Try ==
        ELSE IF Variant = "FirstFailAborts"
          THEN /\ failed' = TRUE /\ phase' = "done" /\ UNCHANGED <<k, attached, attachedGenuine>>
          ELSE /\ k' = k + 1 /\ UNCHANGED <<attached, attachedGenuine, phase, failed>>
-  /\ UNCHANGED <<urls, cache>>
+  /\ UNCHANGED <<prior, urls, cache>>
 
 AllFailed ==
   /\ phase = "trying" /\ k > Len(urls)
   /\ IF Variant = "OmitOnFailure" THEN failed' = FALSE ELSE failed' = TRUE
   /\ phase' = "done"
-  /\ UNCHANGED <<urls, cache, k, contacted, attached, attachedGenuine>>
+  /\ UNCHANGED <<prior, urls, cache, k, contacted, attached, attachedGenuine>>
 
 SelfCheck ==
   /\ phase = "selfcheck"
@@ -73,7 +77,7 @@ SelfCheck ==
      IN IF ok THEN failed' = FALSE /\ UNCHANGED <<attached, attachedGenuine>>
               ELSE failed' = TRUE /\ attached' = 0 /\ attachedGenuine' = FALSE
   /\ phase' = "done"
-  /\ UNCHANGED <<urls, cache, k, contacted>>
+  /\ UNCHANGED <<prior, urls, cache, k, contacted>>
 
 Next == CacheLookup \/ Try \/ AllFailed \/ SelfCheck
 Spec == Init /\ [][Next]_vars
